@@ -159,8 +159,13 @@ class RealServerApp:
     server.application, i.e. whatever BaseWSGIServer.__init__ installed."""
 
     def __init__(self, **kw):
+        import logging
         from waitress.server import create_server
 
+        lg = logging.getLogger("waitress")
+        if not any(isinstance(h, logging.NullHandler) for h in lg.handlers):
+            lg.addHandler(logging.NullHandler())
+        lg.propagate = False
         self.seen = {}
 
         def app(environ, start_response):
@@ -930,3 +935,73 @@ def prim_cases(rng, tier):
             got = l[-k:]
             out.append(("lastk %d %s" % (k, " ".join(hx(x) for x in l)), " ".join(["l"] + [hx(x) for x in got])))
     return out
+
+
+def res_json(r):
+    if r[0] == "ok":
+        return {"outcome": "ok", "environ_hex": env_json(r[1])}
+    if r[0] == "mal":
+        return {"outcome": "400", "header": r[1]}
+    if r[0] == "exn":
+        return {"outcome": "exception", "class": r[1]}
+    return {"outcome": "other", "detail": [str(x) for x in r[1:]]}
+
+
+def res_from_json(d):
+    if d["outcome"] == "ok":
+        return ("ok", env_from_json(d["environ_hex"]))
+    if d["outcome"] == "400":
+        return ("mal", d["header"])
+    if d["outcome"] == "exception":
+        return ("exn", d["class"])
+    return ("other",)
+
+
+def run_prims(ctx, runner):
+    pc = prim_cases(ctx.rng, ctx.tier)
+    got = runner.query([c for c, _ in pc])
+    bad = [(c, e, g) for (c, e), g in zip(pc, got) if e != g]
+    for c, e, g in bad[:5]:
+        ctx.notes.append("K-proxy primitive mismatch: %s expected %s got %s" % (c, e, g))
+        ctx.report("prim:" + c, "primitive of the model disagrees with CPython / the real function: %s expected %s, model %s" % (c, e, g),
+                   {"kind": "prim", "query": c, "expected": e, "observed": g, "failing_input_found": True})
+    return len(pc), not bad
+
+
+def report_model_mismatches(ctx, mism, tag):
+    for env, cfg, r, m in mism[:20]:
+        d = describe(env, cfg)
+        d.update({"kind": "model", "entry": tag, "expected": res_json(m), "observed": res_json(r),
+                  "expected_by": "extracted Coq model (Model/Proxy.v)", "failing_input_found": True})
+        ctx.report("model:%s:%s" % (tag, case_key(env, cfg)[:12]),
+                   "model and implementation disagree (%s): implementation %s ; model %s" % (tag, short(r), short(m)), d)
+
+
+def replay_common(data):
+    """shared by the replay() of C15 and C16; returns 0 when the recorded failure is gone"""
+    kind = data.get("kind")
+    if kind == "prim":
+        print("primitive mismatch; re-run the check")
+        return 1
+    env = env_from_json(data["environ_hex"])
+    cfg = cfg_from_json(data["config"])
+    if kind == "model":
+        r = real_middleware(env, cfg)
+        want = res_from_json(data["expected"])
+        print("config=%s headers=%r\n expected(model)=%s\n observed_now=%s" % (data["config"], data.get("proxy_headers"), short(want), short(r)))
+        return 0 if canon(r) == canon(want) else 1
+    if kind == "tworun":
+        fails = c15_tworun_eval(env, cfg)
+        print("config=%s headers=%r\n %s" % (data["config"], data.get("proxy_headers"), fails or "holds now"))
+        return 1 if fails else 0
+    if kind == "spec":
+        v, d, kf = c16_spec_eval(Spec(), env, cfg)
+        print("config=%s headers=%r\n %s: %s" % (data["config"], data.get("proxy_headers"), v, d))
+        return 0 if v == "pass" else 1
+    if kind == "kinds":
+        nv = data.get("new_value_hex")
+        fails = kinds_eval(env, cfg, data["key"], None if nv is None else unhx(nv))
+        print("config=%s headers=%r key=%s\n %s" % (data["config"], data.get("proxy_headers"), data["key"], fails or "holds now"))
+        return 1 if fails else 0
+    print("unknown replay kind %r" % kind)
+    return 1
